@@ -217,6 +217,29 @@ def convOp (env : Array Dec) (name xs : String) : Step :=
     | _ => badStep env ("conv " ++ name)
   | none => badStep env "conv var"
 
+/-- `x.BitsExp()`: the returned pair must denote exactly |x| (C20): `natOf words × 10^(exp − 19·len) = |x|`
+    for finite x, and a slice denoting 0 for ±0 whatever the history of the variable. -/
+def bitsExpOp (env : Array Dec) (xs : String) : Step :=
+  match getVar env xs with
+  | some (_, x) =>
+    let sp : Outcome → String → Array Dec → Option String := fun o e _ =>
+      if o != .ok then some "BitsExp panicked" else
+      match e.splitOn " " with
+      | [ws, es] =>
+        (match parseWords? ws, es.toInt? with
+        | some (M, n), some ex =>
+          match x.form with
+          | .zero => if M == 0 then none else some s!"BitsExp of a zero returned a non-zero mantissa ({ws})"
+          | .inf => none
+          | .finite =>
+            if M * B ^ (x.len - n) == x.mant * B ^ (n - x.len) && ex == x.exp then none
+            else some s!"BitsExp does not denote |x|: words {ws} exp {ex}, model mant {x.mant} len {x.len} exp {x.exp}"
+        | _, _ => some "bad extra")
+      | _ => some "bad extra"
+    { env := env, skipExtra := true, spec := andSpec sp (frameOk env []),
+      tags := ["bitsexp"] ++ (if x.form != .finite then ["special"] else []) }
+  | none => badStep env "bitsexp"
+
 def ratOp (env : Array Dec) (xs : String) : Step :=
   match getVar env xs with
   | some (_, x) =>
@@ -367,6 +390,7 @@ def doOp (env : Array Dec) (c : Ctx) (toks : List String) : Step :=
   | ["isint", x] => convOp env "isint" x
   | ["minprec", x] => convOp env "minprec" x
   | ["sign", x] => convOp env "sign" x
+  | ["bitsexp", x] => bitsExpOp env x
   | ["rat", x] => ratOp env x
   | ["cnew", p, m] =>
     match p.toNat?, m.toNat? >>= Mode.ofNat? with
